@@ -715,7 +715,7 @@ def transfers(ctx, share, nshares):
             if eofs != [False] * (n - 1) + [True]:
                 ctx.violation("xfer-sender-eof-marking", "the end marker is not on exactly the last chunk", {"size": size, "raw": raw, "eofs": eofs})
             expected = payload
-            for seq in arrival_sequences(n, extra, rng, ctx.pick(150, 1500)):
+            for seq in arrival_sequences(n, extra, rng, ctx.pick(150, 6000)):
                 holder = _Holder()
                 mgr = xm.XferManager(holder)
                 xfer = xm.Xfer(4242)
@@ -762,7 +762,7 @@ def transfers(ctx, share, nshares):
         msgs = [Message("TransferPacket", Block("TransferData", TransferID=tid, ChannelType=int(TransferChannelType.ASSET), Packet=k,
                                                 Status=int(TransferStatus.DONE if k == n - 1 else TransferStatus.OK), Data=c))
                 for k, c in enumerate(chunks)]
-        for seq in arrival_sequences(n, extra, rng, ctx.pick(80, 800)):
+        for seq in arrival_sequences(n, extra, rng, ctx.pick(80, 4000)):
             holder = _Holder()
             mgr = tm.TransferManager(holder)
             tr = tm.Transfer(tid)
@@ -799,12 +799,12 @@ def run(ctx):
     os.environ["TZ"] = tz
     time.tzset()
     ctx.cover("tz", tz)
-    inventory(ctx, ctx.pick(50, 500))
+    inventory(ctx, ctx.pick(50, 2000))
     if ctx.shard == 0:
         enum_sweep(ctx)
     wearable_checks(ctx, ctx.pick(20, 200))
-    animations(ctx, ctx.pick(50, 500))
-    meshes(ctx, ctx.pick(25, 250))
+    animations(ctx, ctx.pick(50, 2000))
+    meshes(ctx, ctx.pick(25, 1000))
     transfers(ctx, ctx.shard, ctx.nshards)
 
 
